@@ -252,18 +252,35 @@ def check_take_and_clear(ck: Check, rule: str, fi: FuncInfo, attr_path: str, wha
     ``self.attr(...)`` are violations.  Returns number of uses found."""
     cfg = fi.cfg
     aliases: Set[str] = set()
+
+    def _pairs(st):
+        """(target, value) pairs of an assignment, element-wise for tuple swaps
+        (``cb, self._cb = self._cb, None``)."""
+        out = []
+        if isinstance(st, ast.Assign):
+            for t in st.targets:
+                if isinstance(t, (ast.Tuple, ast.List)) and isinstance(st.value, (ast.Tuple, ast.List)) and len(t.elts) == len(st.value.elts):
+                    out.extend(zip(t.elts, st.value.elts))
+                else:
+                    out.append((t, st.value))
+        elif isinstance(st, ast.AnnAssign) and st.value is not None:
+            out.append((st.target, st.value))
+        return out
+
     for n in q.walk_body(fi.node):
-        if isinstance(n, ast.Assign) and q.dotted(n.value) == attr_path:
-            for t in n.targets:
+        for t, v in _pairs(n):
+            if q.dotted(v) == attr_path:
                 d = q.dotted(t)
                 if d:
                     aliases.add(d)
-    cleared = event_facts(
-        fi,
-        {"cleared": node_assigns(attr_path, is_none)},
-        {"cleared": lambda n: n.kind == "stmt" and isinstance(n.ast, (ast.Assign, ast.AnnAssign)) and attr_path in q.assigned_paths(n.ast) and not is_none(n.ast.value)},
-        cond_facts=False,
-    )
+
+    def _clears(n):
+        return n.kind == "stmt" and any(q.dotted(t) == attr_path and is_none(v) for t, v in _pairs(n.ast))
+
+    def _rearms(n):
+        return n.kind == "stmt" and any(q.dotted(t) == attr_path and not is_none(v) for t, v in _pairs(n.ast))
+
+    cleared = event_facts(fi, {"cleared": _clears}, {"cleared": _rearms}, cond_facts=False)
     cnt = 0
 
     def is_use(x: ast.AST) -> Optional[str]:
